@@ -274,7 +274,10 @@ _BOUND = {
                float('-inf')],
     'String': ['', 'x' * 128, 'é世\U0001f600', 'a', '{"text":"x"}',
                '\ufeff{"text":"x"}', '\ufeff', ' x ', '\x00', 'a\r\n',
-               '\ufffd\u2028'],
+               '\ufffd\u2028',
+               # beyond 32767 BYTES (the protocol's string limits count
+               # characters; chat / disconnect JSON may be far longer)
+               'x' * 40000, '\u4e16' * 11000],
     'UUID': ['00000000-0000-0000-0000-000000000000',
              'ffffffff-ffff-ffff-ffff-ffffffffffff',
              '12345678-1234-5678-1234-567812345678'],
